@@ -147,6 +147,7 @@ class Tr:
         if t in ('int', 'time'): return '(%s != 0)' % x
         if t in ('bytes', 'list'): return '(!(%s).isEmpty)' % x
         if t == 'opt': return '(%s).isSome' % x
+        if t == 'optbytes': return '((%s).any (fun s => !s.isEmpty))' % x   # None and b'' are both falsy
         raise Untranslatable('truthiness of %s (%s)' % (ast.unparse(e), t))
 
     def expr(self, e):
@@ -239,7 +240,7 @@ class Tr:
             if isinstance(r, ast.Constant) and r.value is None:
                 x = self.expr(l)
                 t = self.typ(l)
-                if t == 'opt':
+                if t in ('opt', 'optbytes'):
                     return '(%s).isSome' % x if neg else '(%s).isNone' % x
                 if t == 'int':     # model encodes None as 0 for this variable (declared in the site)
                     return '(%s %s 0)' % (x, '!=' if neg else '==')
